@@ -283,6 +283,16 @@ def derive(repo):
         up = _method(cls, "_Update", rel=relname)
         obs = up.args.args[1].arg
         model_need = mesh_need = mesh_clear = False
+        # a notification must perform its clears WHATEVER the current flags: an early exit placed before the
+        # dispatch (e.g. `if self.needUpdate: return`) makes every effect of the dispatch conditional
+        guarded = None
+        for s in _body(up):
+            if isinstance(s, ast.If) and "isinstance(" not in _src(s.test) and any(isinstance(n, (ast.Return, ast.Raise)) for n in ast.walk(s)):
+                guarded = _src(s.test)
+            if isinstance(s, (ast.Return, ast.Raise)):
+                guarded = "unconditional exit"
+            if isinstance(s, ast.If) and "isinstance(" in _src(s.test):
+                break
         for s in _body(up):
             node = s
             while isinstance(node, ast.If):
@@ -293,6 +303,12 @@ def derive(repo):
                     mesh_need = _raises(node.body)
                     mesh_clear = bool(_stmts_calling(node.body, None, "clear_cached_computed_values", ["self"]))
                 node = node.orelse[0] if len(node.orelse) == 1 else None
+        if guarded is not None:
+            # raising a flag that is already up is idempotent, so `if self.needUpdate: return` keeps the two
+            # Need_Update entries; the cache clear is lost on that path.  Any other guard: nothing is guaranteed.
+            mesh_clear = False
+            if guarded != "self.needUpdate":
+                model_need = mesh_need = False
         return model_need, mesh_need, mesh_clear, up
 
     m1, m2, m3, up = update_flags(S, rel)
@@ -327,6 +343,7 @@ def derive(repo):
     note("t_meshset_need", _raises(inner), rel, ms)
     note("t_meshset_clear", bool(_stmts_calling(inner, None, "clear_cached_computed_values", ["self"])), rel, ms)
     note("t_meshset_sub", bool(_stmts_calling(inner, marg, "_Add_observer", ["self"])) and observers_ok, rel, ms)
+    note("t_meshset_initsols", bool(_stmts_calling(inner, "self", "__Init_Sols_n", [])), rel, ms)
     if not _assigns(inner, "self.__mesh", marg):
         raise TranslateError("%s: mesh setter does not store the mesh" % rel)
 
@@ -521,7 +538,7 @@ def derive(repo):
 
 ORDER = ["t_param_need", "t_model_notify", "t_upd_model_need", "t_upd_mesh_need", "t_upd_mesh_clear",
          "t_init_sub_model", "t_init_sub_mesh", "t_pf_sub_material", "t_rho_need", "t_ray_need",
-         "t_mesh_clear", "t_mesh_notify", "t_meshset_need", "t_meshset_clear", "t_meshset_sub",
+         "t_mesh_clear", "t_mesh_notify", "t_meshset_need", "t_meshset_clear", "t_meshset_sub", "t_meshset_initsols",
          "t_updmesh_need", "t_updmesh_clear", "t_bcinit", "t_dirichlet", "t_neumann", "t_lagrange",
          "t_getk_reset", "t_newton_need", "t_pf_need_d", "t_pf_need_u", "t_pf_setiter_d", "t_pf_setiter_u",
          "t_pf_dmg_inval_u", "t_pf_el_inval_d", "t_csr_key_groups", "t_csr_key_ndof", "t_mass_key_group",
